@@ -12,12 +12,36 @@ search:  the property statement on the real code: (i) keep_unsynchronized + any
          interleaving of synchronize/energy/copy/save/... leaves the final bits unchanged,
          (ii) safe vs unsafe agree to rounding (EOS: to truncation), (iii) sync twice = once
 """
-import ctypes, math, os, re, sys, tempfile
+import ctypes, json, math, os, re, sys, tempfile
 sys.path.insert(0, os.path.dirname(os.path.abspath(__file__)))
 from common import *
 import common
 
 D = ctypes.c_double
+
+# ----------------------------------------------------------------------------- watchdog
+# a real C call that never returns (observed: MERCURIUS integrate() with a shortened last step during a
+# close encounter, corpus/C09/mercurius_integrate_hang.json) must not hang the check: ctypes releases the
+# GIL, so a thread can see the stall; it is an infrastructure failure (exit 2), not a C09 verdict
+import threading, time as _time
+_HEART = {"t": _time.time(), "ctx": "", "limit": 240.0}
+
+
+def beat(ctx):
+    _HEART["t"] = _time.time()
+    _HEART["ctx"] = ctx
+
+
+def _watchdog():
+    while True:
+        _time.sleep(5)
+        if _time.time() - _HEART["t"] > _HEART["limit"]:
+            sys.stderr.write("INFRA-FAILURE C09: a call into librebound did not return within %ds: %s\n" % (_HEART["limit"], _HEART["ctx"][:600]))
+            sys.stderr.flush()
+            os._exit(2)
+
+
+threading.Thread(target=_watchdog, daemon=True).start()
 COORD_NAMES = ["jacobi", "democraticheliocentric", "whds", "barycentric"]
 SABA_ROWS = {0x0: "SABA1", 0x1: "SABA2", 0x2: "SABA3", 0x3: "SABA4", 0x100: "SABACM1", 0x101: "SABACM2",
              0x102: "SABACM3", 0x103: "SABACM4", 0x200: "SABACL1", 0x201: "SABACL2", 0x202: "SABACL3",
@@ -555,7 +579,7 @@ class Clock:
         return n, k, reverse, rc
 
 
-def add_integrates(rng, ops, clock, syncFirst, pure=False):
+def add_integrates(rng, ops, clock, syncFirst, pure=False, no_exact=False):
     """replace some ops by integrate calls; returns (driver tokens, python ops)"""
     toks, pyops = [], []
     for op in ops:
@@ -566,7 +590,7 @@ def add_integrates(rng, ops, clock, syncFirst, pure=False):
                      "rev": -rng.uniform(0.05, 3.5) * adt, "zero": 0.0}[kind]
             fwd = math.copysign(1., clock.dt)
             tmax = clock.t + fwd * delta
-            exact = int(rng.chance(0.6))
+            exact = 0 if no_exact else int(rng.chance(0.6))
             n, k, rev, rc = clock.integrate(tmax, exact)
             toks.append("i:%d:%d:%d:%d:%d:%d:%d" % (n, k, exact, rev, syncFirst[0], syncFirst[1], rc))
             pyops.append(("i", tmax, exact, kind))
@@ -685,6 +709,7 @@ def replay(c, W, exe, ncases, family):
     nint = [0]
     ncb = [0]
     for (o, system, ops, setup, key, toks), line, model in zip(cases, lines, out):
+        beat("replay " + line)
         integ_name = "whfast" if family == "var" else family
         A = W.sim(system, integ_name, setup)
         B = W.sim(system, integ_name, setup)
@@ -776,7 +801,7 @@ def replay_mercurius(c, W, exe, ncases, coarse=False):
         if "s" not in ops:
             ops.append("s")
         safe = int(rng.chance(0.35))
-        toks, ops = add_integrates(rng, ops, Clock(system["dt"], False), (W.K["syncFirst"], W.K["forceSync"]))
+        toks, ops = add_integrates(rng, ops, Clock(system["dt"], False), (W.K["syncFirst"], W.K["forceSync"]), no_exact=coarse)
         lines.append("%s %d 1 0 0 0 0 %s" % ("MC" if coarse else "M", safe, " ".join(toks)))
         cases.append((safe, system, ops, toks))
     out = run_driver(exe, lines)
@@ -794,6 +819,7 @@ def replay_mercurius(c, W, exe, ncases, coarse=False):
 
     nint = 0
     for (safe, system, ops, toks), line, model in zip(cases, lines, out):
+        beat("replay_mercurius " + line + " " + json.dumps(system))
         def setup(s):
             s.ri_mercurius.safe_mode = safe
         A = W.sim(system, "mercurius", setup)
@@ -985,6 +1011,7 @@ def replay_eos(c, W, exe):
         return
     nops = 0
     for (p0, p1, n, safe, system, ops), line, model in zip(cases, lines, out):
+        beat("replay_eos " + line)
         def setup(s):
             s.ri_eos._phi0, s.ri_eos._phi1, s.ri_eos.n, s.ri_eos.safe_mode = p0, p1, n, safe
         A = W.sim(system, "eos", setup)
@@ -1274,6 +1301,7 @@ def api_sequences(c, W, cfgs):
     nrev = 0
     for label, integ, mk, has_keep in cfgs:
         fam = label.split()[0]
+        beat("api_sequences " + label)
         if "c2=1" in label:
             continue                      # F18 is reported by search(); here it would only mask other things
         for q in range(nseq):
@@ -1380,6 +1408,7 @@ def archive_outputs(c, W, cfgs):
     nout = 0
     for label, integ, mk, has_keep in pick:
         fam = label.split()[0]
+        beat("archive_outputs " + label)
         for rep in range(3 if c.thorough else 1):
             rng = c.rng.fork()
             system = gen_system(rng)
@@ -1484,7 +1513,7 @@ def callback_search(c, W, cfgs):
 
     def drag(sp):
         s_ = sp.contents
-        f = 1. - 0.05 * abs(s_.dt)
+        f = 1. - 0.002 * abs(s_.dt)
         pp = s_._particles
         for i in range(1, s_.N):
             pp[i].vx = pp[i].vx * f
@@ -1493,6 +1522,7 @@ def callback_search(c, W, cfgs):
 
     for label, integ, mk, has_keep in pick:
         fam = label.split()[0]
+        beat("callback_search " + label)
         for which in ("pre", "post", "both"):
             rng = c.rng.fork()
             system = gen_system(rng)
@@ -1532,7 +1562,7 @@ def callback_search(c, W, cfgs):
                             "%s: with a %s_timestep_modifications callback that edits velocities (drag), unsafe mode + synchronize differs from safe mode by %.3g relative after %d steps"
                             % (label, "pre/post" if which == "both" else which, err, nsteps),
                             {"integrator": integ, "label": label, "system": system, "callback": which, "steps": nsteps,
-                             "edit": "v *= 1 - 0.05*|dt| for every particle but the first", "relative_difference": err})
+                             "edit": "v *= 1 - 0.002*|dt| for every particle but the first", "relative_difference": err})
     c.cov["callback_search_worst (eos: fraction of its tolerance)"] = {k: float("%.3g" % v) for k, v in sorted(worst.items())}
 
 
@@ -1549,6 +1579,7 @@ def search(c, W):
     eos_ratio = {}
     for label, integ, mk, has_keep in cfgs:
         for isys in range(nsys):
+            beat("search " + label)
             rng = c.rng.fork()
             system = gen_system(rng)
             if integ in ("saba",):
